@@ -21,8 +21,12 @@ type Violation struct {
 	Detail    string `json:"detail"`
 }
 
+// pat: a position-dependent pattern.  The slice starts at an address that is misaligned by (3*seed) mod 8 bytes (word-wise
+// absorption paths see unaligned input), aligned when seed is a multiple of 8.
 func pat(seed, n int) []byte {
-	b := make([]byte, n)
+	off := (seed * 3) & 7
+	buf := make([]byte, n+8)
+	b := buf[off : off+n : off+n]
 	for i := range b {
 		b[i] = byte((i*131 + (i>>8)*7 + seed*29 + 1) & 0xff)
 	}
@@ -143,8 +147,8 @@ func RunHistory(c HCase) (res Result) {
 	rng := rand.New(rand.NewSource(c.Seed))
 	for _, a := range Algos(c.Class, c.Rate, rng) {
 		h := a.New()
-		stream := pat(1, 4096)
-		other := pat(2, 4096)
+		stream := pat(1+7*int(c.Seed&1), 4096) // misaligned by 3 bytes, or aligned
+		other := pat(2+6*int((c.Seed>>1)&1), 4096)
 		pos := 0
 		type kept struct {
 			got  []byte // the slice the library returned (kept, not copied)
